@@ -235,7 +235,9 @@ func (l *leader) checkConfigAction(t *task, config Config, status *replicationSt
 }
 
 func (l *leader) canChangeConfig() bool {
-	return l.configs.IsCommitted() && !l.transfer.inProgress()
+	// a leader must commit an entry of its own term before it may introduce
+	// a new configuration, also for actions it carries out on its own
+	return l.configs.IsCommitted() && !l.transfer.inProgress() && l.commitIndex >= l.startIndex
 }
 
 func (l *leader) onWaitForStableConfig(t waitForStableConfig) {
